@@ -132,51 +132,74 @@ def main():
                 mats = [True] if split in ISOT_ONLY else ([False] if not thorough else [False, True])
                 for isot in mats:
                     mat = make_material(rng, dim, isot)
-                    ident = dict(split=split, regularization=regu, dim=dim, material=type(mat).__name__)
-                    try:
-                        pfm = Models.PhaseField(mat, split, regu, 0.5, 0.1)
-                        cP, cM = pfm.Calc_C(FE())
-                        sP, sM = pfm.Calc_Sigma_e_pg(FE())
-                        pP, pM = pfm.Calc_psi_e_pg(FE())
-                    except Exception as ex:  # noqa: BLE001
-                        res.fail(f"split raises split={split} dim={dim}", f"{type(ex).__name__}: {str(ex)[:150]}", ident)
-                        continue
-                    cP, cM, sP, sM, pP, pM = (np.asarray(a, dtype=float) for a in (cP, cM, sP, sM, pP, pM))
-                    C = np.asarray(mat.C)
-                    if split in ("Bourdin", "Amor"):
-                        pre = None
-                    elif split == "He":
-                        pre = np.asarray(mat.Get_sqrt_C_S()[0])
-                    elif split in ("Stress", "Zhang") or split.startswith("AnisotStress"):
-                        pre = C
-                    else:
-                        pre = np.eye(C.shape[0])
-                    # the 3D closed-form decomposition treats an element as a whole: it is degenerate if one of its points is
-                    deg_elem = [dim == 3 and pre is not None and any(degenerate(unkelvin(pre @ Eps[e_, p_])) for p_ in range(nPg)) for e_ in range(len(pairs))]
-                    res.count(f"split:{split}")
-                    for e, (a, b) in enumerate(pairs):
-                        for p, st in enumerate((a, b)):
-                            nm = names[st] if a == b else f"mixed({names[a]},{names[b]})[{p}]"
-                            res.case((split, regu, dim, isot, nm))
-                            idn = dict(ident, state=nm, strain=Eps[e, p].tolist())
-                            eps = Eps[e, p]
-                            cPe = cP[e, p] if cP.ndim == 4 and cP.shape[0] > 1 else np.broadcast_to(cP, (len(pairs), nPg) + cP.shape[-2:])[e, p]
-                            cMe = cM[e, p] if cM.ndim == 4 and cM.shape[0] > 1 else np.broadcast_to(cM, (len(pairs), nPg) + cM.shape[-2:])[e, p]
-                            vals = np.concatenate([cPe.ravel(), cMe.ravel(), sP[e, p], sM[e, p], [pP[e, p], pM[e, p]]])
-                            if not np.all(np.isfinite(vals)):
-                                res.fail(KNOWN3D if deg_elem[e] else f"non-finite split={split} dim={dim} state={names[st]}", f"split {split}: positive / negative parts contain NaN or inf for the strain state '{nm}'", idn)
-                                continue
-                            scaleC = np.abs(C).max()
-                            if np.abs(cPe + cMe - C).max() > 1e-8 * scaleC:
-                                res.fail(KNOWN3D if deg_elem[e] else f"cP + cM != C split={split} dim={dim} state={names[st]}", f"split {split}: max |cP + cM - C| / |C| = {np.abs(cPe + cMe - C).max() / scaleC:.2e} for '{nm}'", idn)
-                                continue
-                            sig = C @ eps
-                            ssc = 1e-30 + np.abs(sig).max()
-                            if np.abs(sP[e, p] + sM[e, p] - sig).max() > 1e-8 * max(ssc, 1e-12 * scaleC):
-                                res.fail(KNOWN3D if deg_elem[e] else f"stress not partitioned split={split} dim={dim} state={names[st]}", f"split {split}: |sigma+ + sigma- - C eps| = {np.abs(sP[e, p] + sM[e, p] - sig).max():.2e} for '{nm}'", idn)
-                            psi = 0.5 * eps @ sig
-                            if abs(pP[e, p] + pM[e, p] - psi) > 1e-8 * max(abs(psi), 1e-24 * scaleC):
-                                res.fail(KNOWN3D if deg_elem[e] else f"energy not partitioned split={split} dim={dim} state={names[st]}", f"split {split}: psi+ + psi- = {pP[e, p] + pM[e, p]} but 1/2 eps.C eps = {psi} for '{nm}'", idn)
+                    for phase in (0, 1):
+                        if phase == 1:
+                            # the same model object after a material parameter was assigned: every derived quantity follows the new stiffness
+                            if isinstance(mat, E_.Isotropic):
+                                mat.E = mat.E * 1.75
+                                mat.v = 0.125
+                            elif isinstance(mat, E_.TransverselyIsotropic):
+                                mat.El = mat.El * 1.5
+                                mat.Gl = mat.Gl * 0.75
+                            else:
+                                mat.E1 = mat.E1 * 1.5
+                                mat.G12 = mat.G12 * 0.75
+                        ident = dict(split=split, regularization=regu, dim=dim, material=type(mat).__name__, after_parameter_change=bool(phase))
+                        try:
+                            pfm = Models.PhaseField(mat, split, regu, 0.5, 0.1)
+                            cP, cM = pfm.Calc_C(FE())
+                            sP, sM = pfm.Calc_Sigma_e_pg(FE())
+                            pP, pM = pfm.Calc_psi_e_pg(FE())
+                        except Exception as ex:  # noqa: BLE001
+                            res.fail(f"split raises split={split} dim={dim}", f"{type(ex).__name__}: {str(ex)[:150]}", ident)
+                            continue
+                        cP, cM, sP, sM, pP, pM = (np.asarray(a, dtype=float) for a in (cP, cM, sP, sM, pP, pM))
+                        C = np.asarray(mat.C)
+                        if split in ("Bourdin", "Amor"):
+                            pre = None
+                        elif split == "He":
+                            pre = np.asarray(mat.Get_sqrt_C_S()[0])
+                        elif split in ("Stress", "Zhang") or split.startswith("AnisotStress"):
+                            pre = C
+                        else:
+                            pre = np.eye(C.shape[0])
+                        # the 3D closed-form decomposition treats an element as a whole: it is degenerate if one of its points is
+                        deg_elem = [dim == 3 and pre is not None and any(degenerate(unkelvin(pre @ Eps[e_, p_])) for p_ in range(nPg)) for e_ in range(len(pairs))]
+                        res.count(f"split:{split}")
+                        for e, (a, b) in enumerate(pairs):
+                            for p, st in enumerate((a, b)):
+                                nm = names[st] if a == b else f"mixed({names[a]},{names[b]})[{p}]"
+                                res.case((split, regu, dim, isot, nm, phase))
+                                idn = dict(ident, state=nm, strain=Eps[e, p].tolist())
+                                eps = Eps[e, p]
+                                cPe = cP[e, p] if cP.ndim == 4 and cP.shape[0] > 1 else np.broadcast_to(cP, (len(pairs), nPg) + cP.shape[-2:])[e, p]
+                                cMe = cM[e, p] if cM.ndim == 4 and cM.shape[0] > 1 else np.broadcast_to(cM, (len(pairs), nPg) + cM.shape[-2:])[e, p]
+                                vals = np.concatenate([cPe.ravel(), cMe.ravel(), sP[e, p], sM[e, p], [pP[e, p], pM[e, p]]])
+                                if not np.all(np.isfinite(vals)):
+                                    res.fail(KNOWN3D if deg_elem[e] else f"non-finite split={split} dim={dim} state={names[st]}", f"split {split}: positive / negative parts contain NaN or inf for the strain state '{nm}'", idn)
+                                    continue
+                                scaleC = np.abs(C).max()
+                                if np.abs(cPe + cMe - C).max() > 1e-8 * scaleC:
+                                    res.fail(KNOWN3D if deg_elem[e] else f"cP + cM != C split={split} dim={dim} state={names[st]}", f"split {split}: max |cP + cM - C| / |C| = {np.abs(cPe + cMe - C).max() / scaleC:.2e} for '{nm}'", idn)
+                                    continue
+                                sig = C @ eps
+                                ssc = 1e-30 + np.abs(sig).max()
+                                if np.abs(sP[e, p] + sM[e, p] - sig).max() > 1e-8 * max(ssc, 1e-12 * scaleC):
+                                    res.fail(KNOWN3D if deg_elem[e] else f"stress not partitioned split={split} dim={dim} state={names[st]}", f"split {split}: |sigma+ + sigma- - C eps| = {np.abs(sP[e, p] + sM[e, p] - sig).max():.2e} for '{nm}'", idn)
+                                psi = 0.5 * eps @ sig
+                                if abs(pP[e, p] + pM[e, p] - psi) > 1e-8 * max(abs(psi), 1e-24 * scaleC):
+                                    res.fail(KNOWN3D if deg_elem[e] else f"energy not partitioned split={split} dim={dim} state={names[st]}", f"split {split}: psi+ + psi- = {pP[e, p] + pM[e, p]} but 1/2 eps.C eps = {psi} for '{nm}'", idn)
+                                if split == "He" and not deg_elem[e]:
+                                    # independent reference: eps~ = C^1/2 eps, positive principal part of eps~, sigma+ = C^1/2 eps~+, psi+ = 1/2 |eps~+|^2
+                                    lamC, QC = np.linalg.eigh(C)
+                                    rootC = (QC * np.sqrt(lamC)) @ QC.T
+                                    wt, Vt = np.linalg.eigh(unkelvin(rootC @ eps))
+                                    ep_ = kelvin((Vt * np.maximum(wt, 0)) @ Vt.T)
+                                    refS, refP = rootC @ ep_, 0.5 * ep_ @ ep_
+                                    if np.abs(sP[e, p] - refS).max() > 1e-7 * max(ssc, 1e-12 * scaleC) or abs(pP[e, p] - refP) > 1e-7 * max(abs(psi), 1e-24 * scaleC) \
+                                            or np.abs(cPe @ eps - refS).max() > 1e-7 * max(ssc, 1e-12 * scaleC):
+                                        res.fail(f"He positive part split={split} dim={dim} state={names[st]}",
+                                                 f"split He: sigma+ / psi+ / cP eps differ from C^1/2 <C^1/2 eps>+ computed with numpy.linalg.eigh (|d sigma+| = {np.abs(sP[e, p] - refS).max():.2e}, d psi+ = {abs(pP[e, p] - refP):.2e}) for '{nm}'", idn)
         # projectors vs an independent eigen-decomposition (Miehe machinery on the strain itself)
         mat = E_.Isotropic(dim, E=10.0, v=0.25, planeStress=False)
         pfm = Models.PhaseField(mat, "Miehe", "AT2", 0.5, 0.1)
